@@ -69,7 +69,7 @@ fn execute(terms: &[(u32, &str)], p2: &[(u32, u32)], p3: &[Op3]) -> (Vec<bool>, 
 }
 
 fn history_json(p2: &[(u32, u32)], p3: &[Op3]) -> Value {
-    json!({"terms_present": [1, 2], "term_absent": 3,
+    json!({"terms_present": [1, 2], "every_other_term_id": "absent",
         "phase AllTerms": p2.iter().map(|(p, c)| format!("add_parent(parent={p}, child={c})")).collect::<Vec<_>>(),
         "phase ConnectedTerms": p3.iter().map(|o| o.describe()).collect::<Vec<_>>()})
 }
@@ -184,6 +184,14 @@ fn check_history(ctx: &mut Ctx, p2: &[(u32, u32)], p3: &[Op3]) {
     ctx.outcome(obs.fingerprint());
 }
 
+fn binom(n: u64, k: u64) -> u64 {
+    let mut r = 1u64;
+    for i in 0..k {
+        r = r * (n - i) / (i + 1);
+    }
+    r
+}
+
 fn sequences<T: Copy>(alphabet: &[T], max_len: usize) -> Vec<Vec<T>> {
     let mut out: Vec<Vec<T>> = vec![vec![]];
     let mut frontier: Vec<Vec<T>> = vec![vec![]];
@@ -223,13 +231,17 @@ pub fn run(ctx: &mut Ctx) {
     let d3 = if thorough { 4 } else { 3 };
     let p2_seqs = sequences(&p2_alpha, 3);
     let p3_seqs = sequences(&p3_alpha, d3);
-    ctx.space("histories/AllTerms<=3 x ConnectedTerms", &format!("{} add_parent sequences (length <= 3 over 5 calls) x {} annotate/add sequences (length <= {d3} over 21 calls)", p2_seqs.len(), p3_seqs.len()));
+    ctx.space("histories/AllTerms<=3 x ConnectedTerms", &format!("{} add_parent sequences (length <= 3 over 5 calls) x {} annotate/add sequences (length <= {d3} over 21 calls){}", p2_seqs.len(), p3_seqs.len(), if thorough { "" } else { "; quick tier: length-3 add_parent sequences are combined with annotate/add sequences of length <= 2" }));
     // one case per (phase-2 sequence, block of phase-3 sequences)
     let block = 512usize;
+    // quick tier: AllTerms sequences of length 3 are combined with ConnectedTerms sequences of length <= 2 only
+    // (length <= 2 x length <= 3 and length <= 3 x length <= 2 are complete; the full product is the thorough tier)
+    let short_len = 1 + p3_alpha.len() + p3_alpha.len() * p3_alpha.len();
     for p2 in &p2_seqs {
+        let limit = if !thorough && p2.len() == 3 { short_len } else { p3_seqs.len() };
         let mut start = 0;
-        while start < p3_seqs.len() {
-            let end = (start + block).min(p3_seqs.len());
+        while start < limit {
+            let end = (start + block).min(limit);
             if ctx.take() {
                 ctx.state();
                 for p3 in &p3_seqs[start..end] {
@@ -238,6 +250,81 @@ pub fn run(ctx: &mut Ctx) {
                 ctx.sample(|| json!({"AllTerms": p2.iter().map(|(p, c)| format!("add_parent({p},{c})")).collect::<Vec<_>>(), "ConnectedTerms sequences": [start, end], "example": p3_seqs[end - 1].iter().map(|o| o.describe()).collect::<Vec<_>>()}));
             }
             start = end;
+            if ctx.out_of_time() {
+                break;
+            }
+        }
+    }
+
+    // ---- the same histories with HP:0000000 as the absent term (id 0 is the arena's internal placeholder slot)
+    {
+        let p2_zero: [(u32, u32); 5] = [(1, 2), (1, 0), (0, 1), (2, 0), (0, 2)];
+        let mut p3_zero: Vec<Op3> = vec![];
+        for k in [Kind::Gene, Kind::Omim, Kind::Orpha] {
+            for r in [7u32, 8] {
+                for t in [1u32, 2, 0] {
+                    p3_zero.push(Op3::Annotate(k, r, t));
+                }
+            }
+            p3_zero.push(Op3::Add(k, 7));
+        }
+        let a = sequences(&p2_zero, 2);
+        let b = sequences(&p3_zero, 2);
+        ctx.space("histories/absent-term-is-id-0", &format!("{} add_parent sequences (<= 2) x {} annotate/add sequences (<= 2) with terms 1, 2 present and HP:0000000 absent", a.len(), b.len()));
+        for p2 in &a {
+            if !ctx.take() {
+                continue;
+            }
+            ctx.state();
+            for p3 in &b {
+                check_history(ctx, p2, p3);
+            }
+            ctx.sample(|| json!({"AllTerms": p2.iter().map(|(p, c)| format!("add_parent({p},{c})")).collect::<Vec<_>>(), "absent_term": 0}));
+        }
+    }
+
+    // ---- explicit-state search to a greater depth: a canonical state is the SET of distinct ConnectedTerms
+    // calls issued so far (successful calls commute - C16 - and failing calls must have no effect - this
+    // property - so two histories with the same call set have the same futures); every transition
+    // state --call--> state' is replayed on the real Builder from scratch via a representative history and
+    // checked with the full oracle, so a wrong merge of states would itself show up as a violation.
+    {
+        let depth = if thorough { 6 } else { 5 };
+        let total: u64 = (0..=depth).map(|j| binom(p3_alpha.len() as u64, j as u64)).sum();
+        ctx.space("histories/ConnectedTerms-state-graph", &format!("all {total} canonical states with <= {depth} distinct calls (of 21) x all 21 outgoing transitions, after the AllTerms prefix add_parent(1,3)!, add_parent(1,2); representative history = the state's calls in ascending (even size) or descending (odd size) alphabet order, then the new call"));
+        let p2: Vec<(u32, u32)> = vec![(1, 3), (1, 2)];
+        let nops = p3_alpha.len();
+        // enumerate masks by popcount (breadth-first), then numerically
+        for size in 0..=depth {
+            let mut mask: u32 = if size == 0 { 0 } else { (1u32 << size) - 1 };
+            loop {
+                if ctx.take() {
+                    ctx.state();
+                    let mut hist: Vec<Op3> = (0..nops).filter(|i| mask >> i & 1 == 1).map(|i| p3_alpha[i]).collect();
+                    if size % 2 == 1 {
+                        hist.reverse();
+                    }
+                    for op in &p3_alpha {
+                        let mut h = hist.clone();
+                        h.push(*op);
+                        check_history(ctx, &p2, &h);
+                    }
+                    if mask == 0b10101 {
+                        ctx.sample(|| json!({"state (distinct calls)": hist.iter().map(|o| o.describe()).collect::<Vec<_>>(), "transitions": nops}));
+                    }
+                }
+                if size == 0 {
+                    break;
+                }
+                // next mask with the same popcount (Gosper's hack), stop beyond nops bits
+                let c = mask & mask.wrapping_neg();
+                let r = mask + c;
+                let next = (((r ^ mask) >> 2) / c) | r;
+                if next >= (1u32 << nops) {
+                    break;
+                }
+                mask = next;
+            }
             if ctx.out_of_time() {
                 break;
             }
